@@ -314,6 +314,10 @@ func (g *G) valueExpr() string {
 		if g.chance(0.5) {
 			amp = "&"
 		}
+	case "GlobalPtr", "Box.Ptr":
+		if g.chance(0.3) {
+			amp = "*" // the documented `*Value` form: the pointed-to value
+		}
 	}
 	return amp + g.Ref(p, sym)
 }
@@ -610,6 +614,10 @@ func (g *G) service(name string, before, params []string) cfg.Service {
 			}
 		case "GlobalVal":
 			isObj = false
+		case "GlobalPtr", "Box.Ptr":
+			if g.chance(0.3) {
+				amp = "*"
+			}
 		}
 		s.Value = cfg.P(amp + g.Ref(pkg, sym))
 	default:
@@ -853,6 +861,9 @@ func (g *G) addGetters() {
 				}
 			case "GlobalPtr", "Box.Ptr":
 				static = "*Obj"
+				if r.Deref {
+					static = "Obj"
+				}
 			case "GlobalVal":
 				static = "Val"
 			}
